@@ -354,6 +354,12 @@ class FuncAnalysis:
                 self.mutate(o, kind, t)
                 self.gain(o, vals)
         elif isinstance(t, ast.Attribute):
+            # `othermodule.NAME = value`: re-binding a module-level variable of another module of the package
+            if isinstance(t.value, ast.Name) and t.value.id not in self.locals:
+                bd = self.model.scopes[self.fi.module].get(t.value.id)
+                if bd is not None and bd.kind == "module" and f"{bd.target}.{t.attr}" in self.model.module_vars and not self.fi.is_module_body:
+                    self.mutate(("G", f"{bd.target}.{t.attr}", 0), f"global-rebind:{t.attr}", t)
+                    return
             base = self.ev(t.value)
             for o in base:
                 self.mutate(o, f"attr-store:{t.attr}", t)
